@@ -202,7 +202,8 @@ def enumerate_single_faults(answer_obj, text, cfg):
         # 2**31 carets/blanks of a text report would be 2 GiB of output: the
         # excerpt fields get 10**6 as their "huge" value (bound of the
         # simulation, see DESIGN.md §4 C15)
-        huge = 10 ** 6 if 'context' in p else 2 ** 31
+        # (TextGears: the shell derives the excerpt from offset/length itself)
+        huge = 10 ** 6 if ('context' in p or 'errors' in p) else 2 ** 31
         for nv in sorted({v - 1, v + 1, v * 2, n - 1, n, n + 1, n + 2, n + 3,
                           n + 7, 2 * n, -n, huge, -huge, n - v, n - v + 1,
                           n - v + 2}):
